@@ -1,6 +1,6 @@
 """C08 - primitive steps encode exactly their defining optimality conditions.
 
-(symbolic)  every step x option x step size / accuracy of {0, 1/2, 1, 2} x starting point {leaf, combination, point returned
+(symbolic)  every step x option x step size / accuracy of {0, 1/2, 1, 2, 1e-9} x starting point {leaf, combination, point returned
             by a preceding step, the point the preceding step started from} x function {differentiable leaf, non-differentiable leaf, sum of both, sum with one term
             already evaluated at the starting point} after 0 or 1 preceding steps is executed on the real library; the
             returned objects, the EXACT set of samples and side constraints added to every function (diff of all lists
@@ -19,10 +19,10 @@ PROPERTY = "C08"
 LEVEL = "model_checking"
 
 STEPS = ["prox", "inexact_abs", "inexact_rel", "els0", "els1", "els2", "lmo", "eps_sub", "iprox1", "iprox2", "iprox3", "breg_grad", "breg_prox"]
-SIZES = [0, 0.5, 1, 2]
+SIZES = [0, 0.5, 1, 2, 1e-9]
 FUNCS = ["fd", "fn", "sum", "sum_eval"]
 FUNCS_THOROUGH = FUNCS + ["weighted", "nested", "zero"]
-SIZES_THOROUGH = [0, 0.5, 1, 2, 3.5, 0.1]
+SIZES_THOROUGH = [0, 0.5, 1, 2, 3.5, 0.1, 1e-9, 1e6]
 STARTS = ["leaf", "combo", "returned", "same"]
 PRE = ["none", "prox", "grad"]
 PRE_THOROUGH = PRE + ["prox+grad", "grad+prox", "els", "iprox1"]
